@@ -554,7 +554,9 @@ def main():
                 return False                     # a connection that never starts is another scenario
             rl, _, _ = run_shard(exe, [line], 120)
             rr = [x for x in map(parse_res, rl) if x]
-            return bool(rr) and (not rr[0]["hi"]) and not rr[0]["miss"]
+            # the shrunk scenario must stay inside the domain of the theorem: the model satisfies the predicate on it
+            # (otherwise e.g. an application record without the call it records "fails" on the unchanged library too)
+            return bool(rr) and (not rr[0]["hi"]) and not rr[0]["miss"] and bool(rr[0]["hm"])
         try:
             return shrink(exe, scn, still)
         except Exception:
